@@ -362,6 +362,18 @@ def plan_faults(events, r, l1, win, inv, tier, entry, agg=False, blocked=(), owi
         for n, e in enumerate(chosen):
             when = 'return' if (n % 3 == 2 and e['i'] not in still_open) else 'entry'
             plan.append((e['i'], rr.choice(fam_a if n % 2 == 0 else fam_b), 'L2', when))
+    if tier == 'quick':
+        # bound the cost of one invocation in the quick tier (a successful run with real Agg
+        # drawing has ~100 first-level sites at ~0.7 s per execution): keep every entry-fault of
+        # the first level, then as many of the others as fit; the cap is a count, never a clock
+        cap = 30 if agg else 150
+        if len(plan) > cap:
+            first = [p_ for p_ in plan if p_[2] == 'L1' and p_[3] == 'entry']
+            rest = [p_ for p_ in plan if not (p_[2] == 'L1' and p_[3] == 'entry')]
+            step = max(1, len(rest)//max(1, cap - len(first)))
+            plan = (first + rest[::step])[:max(cap, len(first))]
+            if agg and len(plan) > cap:
+                plan = plan[::max(2, len(plan)//cap)]
     return plan, len(l1ev), len(l2ev)
 
 
